@@ -1,5 +1,5 @@
 """Per-property configuration of the checks."""
-import glob, os
+import glob, os, re
 import gens_core, gens_codec, gens_text, gens_cli, gens_concur
 
 V = os.path.dirname(os.path.dirname(os.path.abspath(__file__)))
@@ -137,5 +137,14 @@ def corpus_cases(pid):
 
 
 def classify_known(pid, known, lines, res, diff):
-    """Returns the description of the listed known finding this mismatch is an instance of, else None."""
+    """Returns the description of the listed known finding this mismatch is an instance of, else None.
+    A "finding:" line of KNOWN_FINDINGS.txt names the exact failing observation (impl=, with '_' for
+    spaces) of an operation (op=); any other disagreement of the same operation is still a violation."""
+    if not diff:
+        return None
+    impl = str(diff[1]).strip()
+    for k in known:
+        if k.get('op') and impl.split(' ')[0] == k['op'] and impl == k.get('impl', '').replace('_', ' '):
+            m = re.search(r'what=(.*)$', k['_line'])
+            return m.group(1) if m else k['_line']
     return None
